@@ -136,8 +136,10 @@ def _run_variant(args):
             return variant["name"], "analysis-error-only", new_err[:2]
         return variant["name"], "MISSED", []
     else:
-        if new or new_err:
-            return variant["name"], "FALSE-ALARM", (new + new_err)[:3]
+        if new:
+            return variant["name"], "FALSE-ALARM", new[:3]
+        if new_err:     # the rule gave up (exit 2), it did not accuse the code
+            return variant["name"], "unrecognised", new_err[:3]
         return variant["name"], "silent", []
 
 
@@ -170,6 +172,7 @@ def run(prop: str, res: Result) -> None:
         "skipped": sum(1 for _, v, _ in outs if v == "skipped"),
         "analysis_error_only": sum(1 for _, v, _ in outs
                                    if v == "analysis-error-only"),
+        "benign_unrecognised": [n for n, v, _ in outs if v == "unrecognised"],
         "problems": bad,
         "table": table,
     }
@@ -179,4 +182,5 @@ def run(prop: str, res: Result) -> None:
           f"{res.extra['selftest']['fired']} fired, "
           f"{res.extra['selftest']['silent']} silent, "
           f"{res.extra['selftest']['skipped']} skipped, "
-          f"{len(bad)} problems")
+          f"{len(res.extra['selftest']['benign_unrecognised'])} benign "
+          f"unrecognised, {len(bad)} problems")
